@@ -200,3 +200,23 @@ CHECKS["C12"]["engine"] += " + E4 fragments x objabs (O-shape)"
 CHECKS["C13"]["text"] = "The regrouping function is evaluated abstractly (object-capable interpreter) on representative flat results - one entity of every kind incl. entities carrying generic keys, reversed order, same kinds separated by others, comments, the empty result, a property with an empty value - and must file every entity once, unchanged, in order, in the bucket of its kind with the six documented buckets present (O-group); the entity statement forms are evaluated down to the grouped output (O-final); structural rules (marker table = documented mapping, f-string markers per grammar alternative, flag consulted only after the flat list is complete) add the cases the scenarios cannot reach."
 CHECKS["C13"]["engine"] = "objabs (regrouping evaluated abstractly) + E4 entities fragment + E5 rules (T-GROUP.*, T-FLAGFLOW, T-AGREE.markers)"
 CHECKS["C13"]["category"] = "other"
+
+ENGINES[:] = [
+    {"name": "E1 srcmodel / cfg / effects / fold", "path": "/verif/sdpverif/srcmodel.py", "serves_properties": ["C03", "C10", "C12", "C13", "C14", "C15", "C16", "C19", "C20"],
+     "kind_free_text": "ast-only resolved program model: modules, imports, C3 MRO, method resolution, call graph, statement CFG, guard atoms, access / read-before-write summaries, constant folder for tokens.py"},
+    {"name": "E1b dcmodel", "path": "/verif/sdpverif/dcmodel.py", "serves_properties": ["C10", "C11", "C12"],
+     "kind_free_text": "dataclass-field model of the 15 per-mode output classes (decorator metadata, field overlay, synthetic classes)"},
+    {"name": "E2 grammar + independent LALR", "path": "/verif/sdpverif/grammar.py", "serves_properties": ["C20", "C01", "C02", "C04", "C05", "C06", "C07", "C09", "C11", "C13", "C17", "C18"],
+     "kind_free_text": "grammar extracted from p_* docstrings in PLY's function order; LALR tables from PLY's generator used as a library; independent LALR(1) derivation (lalr_indep.py)"},
+    {"name": "E3 lexmodel / pyabs", "path": "/verif/sdpverif/lexmodel.py", "serves_properties": ["C01", "C02", "C04", "C05", "C06", "C07", "C09", "C10", "C11", "C12", "C13", "C17", "C18"],
+     "kind_free_text": "abstract interpretation of the t_* lexer methods and p_* actions over word classes (lock-step exemplars with uniformity check, per-exemplar fallback)"},
+    {"name": "E4 deriv + specs", "path": "/verif/sdpverif/deriv.py", "serves_properties": ["C01", "C02", "C04", "C05", "C06", "C07", "C09", "C10", "C11", "C12", "C13", "C17", "C18"],
+     "kind_free_text": "fixed point over fragment spec x lexer transducer x LALR automaton; obligations O-accept / segment / value / uniform / case / counter; specs: table, kwnames, types, clauses, sequence, alter, entities"},
+    {"name": "E4b objabs + final judges", "path": "/verif/sdpverif/objabs.py", "serves_properties": ["C02", "C03", "C04", "C10", "C11", "C12", "C13", "C18"],
+     "kind_free_text": "object-capable abstract interpreter: Output.format, TableData, BaseData and the per-mode dataclasses evaluated abstractly; obligations O-final / keys / shape / mode / concat / group, T-MODE.filter / partition / class"},
+    {"name": "E5 rules", "path": "/verif/sdpverif/rules", "serves_properties": ["C03", "C04", "C05", "C06", "C07", "C10", "C12", "C13", "C14", "C15", "C16", "C19", "C20"],
+     "kind_free_text": "effect / def-use / must-assign / guard-atom / per-alternative rules (T-*)"},
+]
+NOTES = ("Static analysis only; nothing of /repo is imported or executed: the analyser walks the ast of the functions found in the source "
+         "(abstract interpretation on lock-step word classes) and uses PLY's table generator as a library. See DESIGN.md, in particular section 9 (as built). "
+         "Seeded changes and behaviour-preserving refactorings used to test the checks both ways: /verif/seeded (tools/seedcheck.py, tools/benigncheck.py).")
